@@ -454,13 +454,25 @@ class EndpointResponseHandlerGenerator:
 
         # Handle other responses (exclude primary only if it was actually processed)
         other_responses = [r for r in op.responses if not (processed_primary_success and r == primary_success_ir)]
+        # A declared "2XX" range comes after the specific codes so that it cannot shadow them
+        other_responses.sort(key=lambda r: r.status_code.upper() == "2XX")
         for resp_ir in other_responses:
-            if resp_ir.status_code.isdigit():
-                status_code_val = int(resp_ir.status_code)
-                writer.write_line(f"case {status_code_val}:")
+            is_success_range = resp_ir.status_code.upper() == "2XX"
+            if resp_ir.status_code.isdigit() or is_success_range:
+                if is_success_range:
+                    writer.write_line("case _ if 200 <= response.status_code < 300:")
+                else:
+                    status_code_val = int(resp_ir.status_code)
+                    writer.write_line(f"case {status_code_val}:")
                 writer.indent()
 
-                if resp_ir.status_code.startswith("2"):
+                if is_success_range and resp_ir == primary_success_ir:
+                    # The range is the operation's primary response
+                    if strategy.return_type == "None":
+                        writer.write_line("return None")
+                    else:
+                        self._write_strategy_based_return(writer, strategy, context)
+                elif resp_ir.status_code.startswith("2"):
                     # Other 2xx success responses - resolve each response individually
                     if not resp_ir.content:
                         writer.write_line("return None")
